@@ -259,7 +259,10 @@ fn drive<T: Transport>(t: T, p: &BlkParams, rng: &mut SmallRng) -> String {
 }
 
 pub fn run(p: &BlkParams, sc: &str) -> (Vec<Vec<String>>, Value) {
+    // every third scenario runs on a platform that maps buffers in place (no bounce copies)
+    INPLACE_MODE.with(|m| m.set(p.seed % 3 == 0));
     reset_world();
+    INPLACE_MODE.with(|m| m.set(false));
     let mut rng = SmallRng::seed_from_u64(p.seed);
     let mut cfg = crate::zoo::config_space("blk");
     let cap: u64 = [0x40u64, 0x1_0000_0040, 0xffff_ffff_ffff_ffff, 1][rng.gen_range(0..4)];
